@@ -170,7 +170,7 @@ def run(res):
                 if m and m.group(2) != "true":
                     what.append("a message held by the application changed after Recv returned it (snapshot mismatch; 0xdd = released and poisoned)")
                 if m and m.group(3) != "true":
-                    what.append("after a failed Send (or for a reference the application kept) the caller's body was no longer intact")
+                    what.append("after a failed Send (or for a reference the application kept) the caller's message (header or body) was no longer intact, or a retried send took another route")
                 found += 1
                 res.violation("scenario:" + kind_of(sc), "scenario %s: %s" % (sc, "; ".join(what)),
                               {"scenario": sc, "shard": name, "result": r[:1500], "format": "(scenario, snapshots intact?, failed-send / kept-reference bodies intact?) (* counts; notes *)"})
